@@ -47,6 +47,28 @@ static inline ref::Value to_ref(const N& n) {
   return v;
 }
 
+// JSON-pointer tokens of the wrong kind / out of range never resolve. Kept out of line: compare() recurses once
+// per nesting level (documents nested > 1000 deep are compared under ASan), its frame must stay small.
+template <class N>
+__attribute__((noinline)) static const char* wrong_kind_tokens_on_array(const N& n, size_t size) {
+  using namespace sonic_json;
+  if (n.AtPointer(JsonPointer({JsonPointerNode(-1)})) != nullptr) return "AtPointer(JsonPointer{-1}) on an array resolves";
+  if (n.AtPointer(JsonPointer({JsonPointerNode("0")})) != nullptr) return "AtPointer(JsonPointer{\"0\"}) (a string token) on an array resolves";
+  if (n.AtPointer(JsonPointer({JsonPointerNode("")})) != nullptr) return "AtPointer(JsonPointer{\"\"}) on an array resolves";
+  if (size && n.AtPointer(JsonPointer({JsonPointerNode((int)size - 1)})) != &n[size - 1]) return "AtPointer(JsonPointer{size-1})";
+  return nullptr;
+}
+// index tokens (also negative ones) never resolve on an object, whatever its member names are; first_key (may be
+// null) must resolve to the first member
+template <class N>
+__attribute__((noinline)) static const char* wrong_kind_tokens_on_object(const N& n, const std::string* first_key) {
+  using namespace sonic_json;
+  for (int ix : {-1, 0, 1, -7})
+    if (n.AtPointer(JsonPointer({JsonPointerNode(ix)})) != nullptr) return ix == -1 ? "AtPointer(JsonPointer{index -1}) on an object resolves" : ix == 0 ? "AtPointer(JsonPointer{index 0}) on an object resolves" : ix == 1 ? "AtPointer(JsonPointer{index 1}) on an object resolves" : "AtPointer(JsonPointer{index -7}) on an object resolves";
+  if (first_key && n.AtPointer(JsonPointer({JsonPointerNode(*first_key)})) != &n.MemberBegin()->value) return "AtPointer(JsonPointer{first key})";
+  return nullptr;
+}
+
 // Full accessor-level comparison (C03): every public way of reading the node
 // must reproduce the reference value.  Returns "" when identical, else a
 // description of the first difference.
@@ -115,12 +137,8 @@ static inline std::string compare(const N& n, const ref::Value& r, const std::st
       }
       if (!r.a.empty() && &n.Back() != &n[r.a.size() - 1]) return bad("Back()");
       {
-        // pointer tokens of the wrong kind / out of range never resolve on an array
-        using namespace sonic_json;
-        if (n.AtPointer(JsonPointer({JsonPointerNode(-1)})) != nullptr) return bad("AtPointer(JsonPointer{-1}) on an array resolves");
-        if (n.AtPointer(JsonPointer({JsonPointerNode("0")})) != nullptr) return bad("AtPointer(JsonPointer{\"0\"}) (a string token) on an array resolves");
-        if (n.AtPointer(JsonPointer({JsonPointerNode("")})) != nullptr) return bad("AtPointer(JsonPointer{\"\"}) on an array resolves");
-        if (!r.a.empty() && n.AtPointer(JsonPointer({JsonPointerNode((int)r.a.size() - 1)})) != &n[r.a.size() - 1]) return bad("AtPointer(JsonPointer{size-1})");
+        const char* w = wrong_kind_tokens_on_array(n, r.a.size());
+        if (w) return bad(w);
       }
       if (n.AtPointer(r.a.size()) != nullptr) return bad("AtPointer(size) not null");
       return "";
@@ -180,16 +198,8 @@ static inline std::string compare(const N& n, const ref::Value& r, const std::st
         if (n.AtPointer(StringView(key.data(), key.size())) != &exp->value) return bad("AtPointer(key)");
       }
       {
-        // index tokens (also negative ones) never resolve on an object, whatever its member names are
-        using namespace sonic_json;
-        for (int ix : {-1, 0, 1, -7})
-          if (n.AtPointer(JsonPointer({JsonPointerNode(ix)})) != nullptr) return bad("AtPointer(JsonPointer{index " + std::to_string(ix) + "}) on an object resolves");
-        if (!r.o.empty()) {
-          size_t first = 0;
-          while (r.o[first].first != r.o[0].first) first++;
-          const std::string& k0 = r.o[0].first;
-          if (!(g_skip_lookups_on_dup_keys && dups) && n.AtPointer(JsonPointer({JsonPointerNode(k0)})) != &(n.MemberBegin() + first)->value) return bad("AtPointer(JsonPointer{first key})");
-        }
+        const char* w = wrong_kind_tokens_on_object(n, r.o.empty() || (g_skip_lookups_on_dup_keys && dups) ? nullptr : &r.o[0].first);
+        if (w) return bad(w);
       }
       {
         std::string miss = "\x01missing\x02";
